@@ -13,10 +13,11 @@ PROPS = ["C17/Props.v"]
 DRIVER = "c17_driver.py"
 CLAUSE = {1: "self-not-returned", 2: "self-without-providing", 3: "found-iff-chain-exists", 4: "chain-invalid",
           5: "chain-not-minimal", 6: "single-step-specificity", 7: "storage-rule", 8: "outcome-shape"}
-APIS = ["adapt", "adapt_default", "supports", "inst0", "inst1", "inst2", "Supports", "AdaptsTo"]
+APIS = ["adapt", "adapt_default", "supports", "inst0", "inst1", "inst2", "Supports", "AdaptsTo", "either0", "either1", "either2"]
 API_T = {"adapt": C("ApiAdapt"), "adapt_default": C("ApiAdaptDefault"), "supports": C("ApiSupports"),
          "inst0": C("TraitInstance", Nat(0)), "inst1": C("TraitInstance", Nat(1)), "inst2": C("TraitInstance", Nat(2)),
-         "Supports": C("TraitSupports"), "AdaptsTo": C("TraitAdaptsTo")}
+         "Supports": C("TraitSupports"), "AdaptsTo": C("TraitAdaptsTo"),
+         "either0": C("TraitEither", Nat(0)), "either1": C("TraitEither", Nat(1)), "either2": C("TraitEither", Nat(2))}
 
 
 # ---------------------------------------------------------------- terms
@@ -32,6 +33,8 @@ def fac_term(f):
         return C("FMaxDepth", Nat(f[1]))
     if k == "X":
         return C("FNotAfter", Nat(f[1]))
+    if k == "K":
+        return C("FNeeds", Nat(f[1]))
     raise ValueError(f)
 
 
@@ -115,7 +118,8 @@ def _specificity_shape(case, ob, step):
 
 def key_fn(case, ob, step, clause):
     api = case["ops"][step][3]
-    kind = "trait" if api in ("inst0", "inst1", "inst2", "Supports", "AdaptsTo") else "adapt"
+    kind = "compound-trait" if api.startswith("either") else \
+        "trait" if api in ("inst0", "inst1", "inst2", "Supports", "AdaptsTo") else "adapt"
     if clause == 6:
         return "%s/%s" % (CLAUSE[6], _specificity_shape(case, ob, step))
     return "%s/%s" % (CLAUSE.get(clause, clause), kind)
@@ -192,8 +196,10 @@ def gen_fac(rnd, noffers):
         return ["N"]
     if r < 0.80:
         return ["F"]
-    if r < 0.90:
+    if r < 0.88:
         return ["D", rnd.randint(0, 2)]
+    if r < 0.94:
+        return ["K", rnd.randrange(max(1, noffers))]
     return ["X", rnd.randrange(max(1, noffers))]
 
 
@@ -211,9 +217,23 @@ def gen_case(rnd, ctx, max_types, max_offers, nq):
         route = rnd.sample(range(n), nr + 1) if nr + 1 <= n else [rnd.randrange(n) for _ in range(nr + 1)]
         for a, b in zip(route, route[1:]):
             offers.append([a, b, ["A"] if rnd.random() < 0.6 else gen_fac(rnd, no)])
-        rnd.shuffle(offers)
+        if rnd.random() < 0.3 and len(offers) >= 1 and no - nr >= 2:
+            # gate the last step on a detour: ... -> a -(gated)-> b needs the offer a -> c, and c -> a closes the cycle
+            a = route[-2]
+            c = rnd.randrange(n)
+            offers.append([a, c, ["A"]])
+            offers.append([c, a, ["A"]])
+            offers[nr - 1][2] = ["K", len(offers) - 2]
+            nr += 2
+            ctx.count("shape:gated-cycle")
+            keep_order = True
+        else:
+            keep_order = False
+        if not keep_order:
+            rnd.shuffle(offers)
         for _ in range(no - nr):
-            offers.insert(rnd.randrange(len(offers) + 1), [rnd.randrange(n), rnd.randrange(n), gen_fac(rnd, no)])
+            noise = [rnd.randrange(n), rnd.randrange(n), gen_fac(rnd, no)]
+            offers.insert(len(offers) if keep_order else rnd.randrange(len(offers) + 1), noise)   # ids stay valid
         hub = route[-1]
     elif shape < 0.75 and sub is not None and n > 2 and no > 1:
         # competition: several single-step offers from different supertypes of one source to one target
@@ -250,7 +270,7 @@ def gen_case(rnd, ctx, max_types, max_offers, nq):
         else:
             src, tgt = rnd.randrange(n), rnd.randrange(n)
         api = rnd.choice(["adapt"] * 6 + ["adapt_default"] * 5 + ["supports"] * 2 + ["inst0", "inst1", "inst1", "inst2", "inst2",
-                         "Supports", "Supports", "AdaptsTo", "AdaptsTo"])
+                         "Supports", "Supports", "AdaptsTo", "AdaptsTo", "either0", "either1", "either2"])
         ops.append([src, tgt, rnd.randint(0, 1), api])
         ctx.count("entry:" + api)
     ctx.count("types:%d" % n)
@@ -266,7 +286,7 @@ def gen_case(rnd, ctx, max_types, max_offers, nq):
 def corpus():
     """Triggers of the listed finding and hand-made shapes (run first on every run)."""
     cs = []
-    # F17: T0=X, T1=A, T2=C(A), T3=B, T4=S(X, C, B), T5=target; offers A->T, B->T, C->T in this order
+    # F-C17-sort: T0=X, T1=A, T2=C(A), T3=B, T4=S(X, C, B), T5=target; offers A->T, B->T, C->T in this order
     types = [{"bases": []}, {"bases": []}, {"bases": [1]}, {"bases": []}, {"bases": [0, 2, 3]}, {"bases": []}]
     cs.append(dict(types=types, regs=[], offers=[[1, 5, ["A"]], [3, 5, ["A"]], [2, 5, ["A"]]],
                    ops=[[4, 5, 0, a] for a in ("adapt", "adapt_default", "Supports", "AdaptsTo", "inst1")]))
@@ -277,6 +297,15 @@ def corpus():
     mi = [{"bases": []}, {"bases": []}, {"bases": [0, 1]}, {"bases": []}]
     for offs in ([[0, 3, ["A"]], [1, 3, ["A"]]], [[1, 3, ["A"]], [0, 3, ["A"]]]):
         cs.append(dict(types=mi, regs=[], offers=offs, ops=[[2, 3, 0, "adapt"], [2, 3, 0, "AdaptsTo"]]))
+    # a chain that must pass through the same protocol twice via DISTINCT offers: Source(0)->Draft(1), Draft->Review(2),
+    # Review->Draft, Draft->Published(3) whose factory succeeds only after the review offer (two encodings)
+    for pub in (["K", 1], ["X", 0]):
+        cs.append(dict(types=[{"bases": []}] * 4, regs=[],
+                       offers=[[0, 1, ["A"]], [1, 2, ["A"]], [2, 1, ["A"]], [1, 3, pub]],
+                       ops=[[0, 3, 0, a] for a in ("adapt", "adapt_default", "supports", "Supports", "either0")]))
+    # self-loop needed: T0->T0 then T0->T1 only after the loop
+    cs.append(dict(types=[{"bases": []}] * 2, regs=[], offers=[[0, 1, ["K", 1]], [0, 0, ["A"]]],
+                   ops=[[0, 1, 0, "adapt"], [0, 1, 0, "AdaptsTo"]]))
     # cycle + failing conditional factory + longer detour
     cs.append(dict(types=[{"bases": []}] * 4, regs=[],
                    offers=[[0, 1, ["A"]], [1, 0, ["A"]], [1, 3, ["N"]], [1, 2, ["A"]], [2, 3, ["D", 1]], [2, 3, ["X", 3]],
@@ -338,7 +367,7 @@ def run(ctx):
     if ctx.replay:
         cases = [json.load(open(ctx.replay))["replay"]["case"]]
     elif ctx.tier == "quick":
-        cases = corpus() + [gen_case(rnd, ctx, 5, 6, 8) for _ in range(1200)]
+        cases = corpus() + [gen_case(rnd, ctx, 5, 6, 8) for _ in range(1000)]
     else:
         grid = exhaustive(ctx, 3, 2, [["A"], ["N"]])
         seen = set(json.dumps(c, sort_keys=True) for c in grid)
